@@ -1553,6 +1553,93 @@ func (a *Act) fnNames(phiEnv map[ssa.Value]string, results []string, st *State) 
 				}
 			}
 		}
+		if name == "rangeindex" || name == "rangeval" {
+			// the loop was written as an index loop (for i := 0; i < len(s); i++ { ... s[i] ... }) where the contract speaks
+			// of a range loop: rangeindex is the index of the element processed last, i.e. i-1 at the loop head, rangeval the
+			// slice indexed by i. (A renaming of the contract's vocabulary; the clauses stay obligations.)
+			var counters []*ssa.Phi
+			termOf := map[*ssa.Phi]string{}
+			scan := func(v ssa.Value, term string) {
+				phi, ok := v.(*ssa.Phi)
+				if !ok || len(phi.Edges) != 2 {
+					return
+				}
+				if b, isInt := phi.Type().Underlying().(*types.Basic); !isInt || b.Info()&types.IsInteger == 0 {
+					return
+				}
+				zero, step := false, false
+				for _, ed := range phi.Edges {
+					if c, ok := ed.(*ssa.Const); ok && c.Value != nil && c.Value.ExactString() == "0" {
+						zero = true
+					}
+					if bo, ok := ed.(*ssa.BinOp); ok && bo.Op == token.ADD && bo.X == ssa.Value(phi) {
+						if c, ok := bo.Y.(*ssa.Const); ok && c.Value != nil && c.Value.ExactString() == "1" {
+							step = true
+						}
+					}
+				}
+				if zero && step {
+					counters = append(counters, phi)
+					termOf[phi] = term
+				}
+			}
+			for v, t := range phiEnv {
+				scan(v, t)
+			}
+			if len(counters) == 0 {
+				// an enclosing loop's counter (inner loop invariants, loop lets, cuts)
+				for v, t := range a.env {
+					scan(v, t)
+				}
+			}
+			for v := range map[ssa.Value]bool{} {
+				phi, ok := v.(*ssa.Phi)
+				if !ok || len(phi.Edges) != 2 {
+					continue
+				}
+				if b, isInt := phi.Type().Underlying().(*types.Basic); !isInt || b.Info()&types.IsInteger == 0 {
+					continue
+				}
+				zero, step := false, false
+				for _, ed := range phi.Edges {
+					if c, ok := ed.(*ssa.Const); ok && c.Value != nil && c.Value.ExactString() == "0" {
+						zero = true
+					}
+					if bo, ok := ed.(*ssa.BinOp); ok && bo.Op == token.ADD && bo.X == ssa.Value(phi) {
+						if c, ok := bo.Y.(*ssa.Const); ok && c.Value != nil && c.Value.ExactString() == "1" {
+							step = true
+						}
+					}
+				}
+				if zero && step {
+					counters = append(counters, phi)
+				}
+			}
+			if len(counters) == 1 {
+				phi := counters[0]
+				if name == "rangeindex" {
+					return tv{term: fmt.Sprintf("(- %s 1)", termOf[phi]), typ: tInt}, true
+				}
+				var xs []ssa.Value
+				for _, ref := range *phi.Referrers() {
+					if ia, ok := ref.(*ssa.IndexAddr); ok && ia.Index == ssa.Value(phi) {
+						dup := false
+						for _, x := range xs {
+							dup = dup || x == ia.X
+						}
+						if !dup {
+							xs = append(xs, ia.X)
+						}
+					}
+				}
+				if len(xs) == 1 {
+					if t, bound := a.env[xs[0]]; bound {
+						return tv{term: t, typ: xs[0].Type()}, true
+					}
+					return tv{term: a.val(xs[0]), typ: xs[0].Type()}, true
+				}
+			}
+		}
 		// address-taken locals (including named results and captured variables): current content of the cell
 		for _, b := range a.fn.Blocks {
 			for _, in := range b.Instrs {
